@@ -42,7 +42,7 @@ func runC13(r *rt.Runner) {
 				return fmt.Sprintf("%s (%s), %d bytes: %q", kind, it.desc, len(it.data), head(it.data, 2500))
 			})
 			full, fullErr := runEntry(env, kind, bytes.NewReader(it.data))
-			delivered, undelivered, wrapped := 0, 0, 0
+			delivered, undelivered, wrapped, uncomparable := 0, 0, 0, 0
 			for off := 0; off <= len(it.data); off++ {
 				for _, withData := range []bool{false, true} {
 					if withData && off == 0 {
@@ -54,13 +54,17 @@ func runC13(r *rt.Runner) {
 					}
 					// the error value: a plain sentinel, or one that wraps io.EOF /
 					// io.ErrUnexpectedEOF without being it
-					switch rng.IntN(6) {
+					switch rng.IntN(7) {
 					case 0:
 						fr.Err = mon.ErrInjectedWrapsEOF
 						wrapped++
 					case 1:
 						fr.Err = mon.ErrInjectedWrapsUnexpectedEOF
 						wrapped++
+					case 2:
+						// an error value of a type that cannot be compared with ==
+						fr.Err = mon.ErrInjectedList
+						uncomparable++
 					}
 					_, err := runEntry(env, kind, fr)
 					c.Eval()
@@ -149,6 +153,7 @@ func runC13(r *rt.Runner) {
 			}
 			c.Runner().Count("read faults delivered to the library", int64(delivered))
 			c.Runner().Count("read faults whose error wraps io.EOF or io.ErrUnexpectedEOF", int64(wrapped))
+			c.Runner().Count("read faults whose error value is of an uncomparable type", int64(uncomparable))
 			c.Runner().Count("read faults not reached (library had stopped reading)", int64(undelivered))
 			c.Count("files swept over every read offset: " + kind)
 			// truncation: every prefix (fonts and single-CMap files)
@@ -192,6 +197,21 @@ func runC13(r *rt.Runner) {
 			} else {
 				o := &fontOpts{maxGlyphs: 8, fractional: true, hostileStr: true}
 				f := genFont(rng, o)
+				if k%4 == 1 {
+					// a glyph whose charstring is several output buffers long (the
+					// encrypting and the hex writers work in 512-byte blocks, so one
+					// Write call from above then flushes more than once)
+					g := &type1.Glyph{WidthX: 700}
+					x, y := 0.0, 0.0
+					g.MoveTo(x, y)
+					for i, n := 0, 300+rng.IntN(900); i < n; i++ {
+						x += float64(rng.IntN(2001) - 1000)
+						y += float64(rng.IntN(2001) - 1000)
+						g.LineTo(x, y)
+					}
+					g.ClosePath()
+					f.Glyphs["long"] = g
+				}
 				desc = describeFont(f)
 				for _, fm := range allFormats {
 					fm := fm
